@@ -5,9 +5,10 @@ When does the evaluation with a shared visited set (`Model.DfsG.evalG`) never re
 conditions under which **no outcome is ever tainted**, so that every decision is the semantics:
 
   * the key of a tuple handed to the visited filter identifies the dispatched sub-problem (`keyOf` injective,
-    `it.key = keyOf child`) — violated by tuple-to-userset edges, whose key is the parent object (finding V2-A);
-  * a tuple that reaches a *shared* visited filter is not dropped by the condition filter afterwards
-    (`share → cond = tt`) — violated by conditions on cycle edges (finding V2-B);
+    `it.key = keyOf child`) — violated before commit 1d97cee by tuple-to-userset edges, whose key was the parent
+    object (finding V2-A); it is `parent object # computed relation` now, the dispatched sub-problem;
+  * (before commit 1d97cee a third condition was needed: a tuple that reached a shared visited filter must not be
+    dropped by the condition filter afterwards — finding V2-B; the condition filter now runs first, `pull`);
   * no condition is unevaluable (`cond ∈ {tt, ff}`) — otherwise the iterator may swallow the error (finding V2-E).
 
 Together with `evalG_root_sound` this is the precise form of "a global visited filter is sound and complete for
@@ -145,10 +146,11 @@ theorem union2Set_untainted (as bs : List VOut) (ha : ∀ o ∈ as, Untainted o)
 section
 variable {N : Type} [DecidableEq N] (keyOf : N → String)
 
-/-- a tuple of a filtered iterator that cannot cause an unjustified step -/
+/-- a tuple of a filtered iterator that cannot cause an unjustified step: its condition can be evaluated and, if
+it passes the condition filter in front of a *shared* visited filter, its key identifies the dispatched sub-problem -/
 def Item.Clean (share : Bool) (it : Item N) : Prop :=
   (it.cond = .tt ∨ it.cond = .ff) ∧
-  (share = true → it.cond = .tt ∧ ∃ n, it.child = some n ∧ it.key = keyOf n)
+  (share = true → it.cond = .tt → ∃ n, it.child = some n ∧ it.key = keyOf n)
 
 inductive CleanE : VExpr N → Prop
   | lit (v : Leaf) : v ≠ .errSw → CleanE (.lit v)
@@ -184,48 +186,50 @@ theorem pull_clean (hk : KeyOK keyOf) (share active : Bool) (hact : active = tru
   | cons it rest ih =>
     have hit := hraw it (by simp)
     have hrest : ∀ x ∈ rest, Item.Clean keyOf share x := fun x hx => hraw x (by simp [hx])
-    cases hv : (if active then st.vis else none) with
-    | none =>
-      rcases hit.1 with hc | hc
-      · have : pull active (it :: rest) st = (some it.child, rest, { st with onceValid := true }) := by
+    rcases hit.1 with hc | hc
+    · -- the tuple passes the condition filter
+      cases hv : (if active then st.vis else none) with
+      | none =>
+        have : pull active (it :: rest) st = (some it.child, rest, { st with onceValid := true }) := by
           simp [pull, hv, hc]
         rw [this]; exact hst
-      · have : pull active (it :: rest) st = pull active rest st := by simp [pull, hv, hc]
-        rw [this]; exact ih hrest st hst
-    | some V =>
-      have hav : active = true ∧ st.vis = some V := by
-        cases active with
-        | false => simp at hv
-        | true => simp at hv; exact ⟨rfl, hv⟩
-      obtain ⟨hc, n, hch, hkey⟩ := hit.2 (hact hav.1)
-      have hVok : VisOK keyOf V := hst.1 V hav.2
-      cases hf : V.find? (fun e => e.1 = it.key) with
-      | some e =>
-        -- the entry found is the one of this very sub-problem
-        have hem : e ∈ V := List.mem_of_find?_eq_some hf
-        have hek : e.1 = it.key := by simpa using List.find?_some hf
-        obtain ⟨hj, hkk⟩ := hVok e hem
-        have hnode : e.2.1 = n := by
-          rcases hkk with h | h
-          · rw [hek, hkey] at h; exact absurd h (hk.nonempty n)
-          · rw [hek, hkey] at h; exact (hk.inj _ _ h).symm
-        have hbad : (!(e.2.2 && decide (it.child = some e.2.1))) = false := by simp [hj, hch, hnode]
-        have : pull active (it :: rest) st = pull active rest st := by simp [pull, hv, hf, hbad]
-        rw [this]; exact ih hrest st hst
-      | none =>
-        have : pull active (it :: rest) st =
-            (some it.child, rest, { st with vis := some (mark it V), onceValid := true }) := by
-          simp [pull, hv, hf, hc]
-        rw [this]
-        refine ⟨?_, hst.2.1, hst.2.2⟩
-        intro W hW
-        cases hW
-        intro x hx
-        unfold mark at hx
-        rw [hch] at hx
-        rcases List.mem_cons.mp hx with rfl | hx
-        · simp [hc, hkey]
-        · exact hVok x hx
+      | some V =>
+        have hav : active = true ∧ st.vis = some V := by
+          cases active with
+          | false => simp at hv
+          | true => simp at hv; exact ⟨rfl, hv⟩
+        obtain ⟨n, hch, hkey⟩ := hit.2 (hact hav.1) hc
+        have hVok : VisOK keyOf V := hst.1 V hav.2
+        cases hf : V.find? (fun e => e.1 = it.key) with
+        | some e =>
+          -- the entry found is the one of this very sub-problem
+          have hem : e ∈ V := List.mem_of_find?_eq_some hf
+          have hek : e.1 = it.key := by simpa using List.find?_some hf
+          obtain ⟨hj, hkk⟩ := hVok e hem
+          have hnode : e.2.1 = n := by
+            rcases hkk with h | h
+            · rw [hek, hkey] at h; exact absurd h (hk.nonempty n)
+            · rw [hek, hkey] at h; exact (hk.inj _ _ h).symm
+          have hbad : (!(e.2.2 && decide (it.child = some e.2.1))) = false := by simp [hj, hch, hnode]
+          have : pull active (it :: rest) st = pull active rest st := by simp [pull, hv, hf, hbad, hc]
+          rw [this]; exact ih hrest st hst
+        | none =>
+          have : pull active (it :: rest) st =
+              (some it.child, rest, { st with vis := some (mark it V), onceValid := true }) := by
+            simp [pull, hv, hf, hc]
+          rw [this]
+          refine ⟨?_, hst.2.1, hst.2.2⟩
+          intro W hW
+          cases hW
+          intro x hx
+          unfold mark at hx
+          rw [hch] at hx
+          rcases List.mem_cons.mp hx with rfl | hx
+          · simp [hc, hkey]
+          · exact hVok x hx
+    · -- dropped by the condition filter: nothing is claimed
+      have : pull active (it :: rest) st = pull active rest st := by simp [pull, hc]
+      rw [this]; exact ih hrest st hst
 
 /-! ### the loop and the evaluator -/
 
